@@ -227,6 +227,7 @@ def run(ctx):
     gs3d_cases(ctx)
     from .genholograms import check_generated_holograms
     check_generated_holograms(ctx)         # Generated/Holograms.lean (Gerchberg-Saxton bodies, shift_w_double_phase) vs the real functions
+    __import__('harness.props.genobjects', fromlist=['x']).check_optimizer_attrs(ctx)   # regenerated attribute flow of the multi-colour optimiser vs /repo (work package 13)
     # ---------------- double-phase depth shift
     for (h, w) in ([(6, 6), (8, 8), (6, 8)] if ctx.quick else [(6, 6), (8, 8), (6, 8), (10, 10), (12, 8)]):
         for d in (1e-3, -1e-3, 5e-4, -2e-3, 0.0):
